@@ -7,6 +7,7 @@
            | [k:"fn", id, ...]  (user closure: ElvCore.tla)  | [k:"fn", id: 0, b: name] (builtin)
            | [k:"exc", c: Cause]                               (c.c = "ok" is the value $ok)
            | [k:"reason", c: Cause]                            (the `reason` field of an exception)
+           | [k:"ns", env]                                     (a namespace: the variables of a module)
    Cause  == [c:"ok"] | [c:"fail", v: Value] | [c:"flow", n: "break"|"continue"|"return"]
            | [c:"arity"] | [c:"bad-value"] | [c:"out-of-range"] | [c:"no-such-key"] | [c:"type"]
            | [c:"unsupported-option"] | [c:"pipeline", cs: Seq(Cause)]
@@ -129,6 +130,42 @@ Stringable(v) == v.k \in {"str", "num"}
 ToBytes(v) == IF v.k = "num" THEN IntToBytes(v.n) ELSE v.s
 
 Ascii(s) == \A i \in 1..Len(s) : s[i] < 128
+
+\* ---------------------------------------------------------------- byte output ("IO ports", "Output capture")
+\* The output of a command is a sequence of ITEMS: values, and chunks of bytes written to the byte
+\* band, [k |-> "bytes", s |-> bytes] (not a value: it never reaches a variable).
+VBytes(s) == [k |-> "bytes", s |-> s]
+\* [k |-> "unord", vs]: values written in an order the documentation leaves open (`keys`: "there is
+\* no guaranteed order for the keys of a map"); only `order` and `count` may consume them, anything
+\* else that would observe the order is Unspecified.
+VUnord(vs) == [k |-> "unord", vs |-> vs]
+HasUnord(out) == \E i \in 1..Len(out) : out[i].k = "unord" /\ Len(out[i].vs) > 1
+RECURSIVE Expand(_)
+Expand(out) == IF out = <<>> THEN <<>>
+               ELSE IF Head(out).k = "unord" THEN Head(out).vs \o Expand(Tail(out)) ELSE <<Head(out)>> \o Expand(Tail(out))
+IsVal(v)  == v.k # "bytes"
+OutValues(out) == SelectSeq(out, IsVal)
+RECURSIVE OutBytes(_)
+OutBytes(out) == IF out = <<>> THEN <<>>
+                 ELSE IF Head(out).k = "bytes" THEN Head(out).s \o OutBytes(Tail(out)) ELSE OutBytes(Tail(out))
+\* lines of a byte stream: split at newlines, the line ending (\n or \r\n) chopped; a last line
+\* without newline counts if it is not empty
+ChopCR(l) == IF Len(l) >= 1 /\ l[Len(l)] = 13 THEN SubSeq(l, 1, Len(l) - 1) ELSE l
+RECURSIVE LinesFrom(_, _, _)
+LinesFrom(bs, i, cur) ==
+  IF i > Len(bs) THEN (IF cur = <<>> THEN <<>> ELSE <<VStr(cur)>>)
+  ELSE IF bs[i] = 10 THEN <<VStr(ChopCR(cur))>> \o LinesFrom(bs, i + 1, <<>>)
+  ELSE LinesFrom(bs, i + 1, Append(cur, bs[i]))
+Lines(bs) == LinesFrom(bs, 1, <<>>)
+\* What a reader of both bands sees ("Output capture", value inputs of a command): the values, or the
+\* lines as strings; with both bands in use their interleaving is Unspecified.
+\* -> [ok |-> TRUE, vs] | [ok |-> FALSE]
+Captured(out0) == LET out == Expand(out0)  vs == OutValues(out)  bs == OutBytes(out) IN
+                 IF HasUnord(out0) THEN [ok |-> FALSE]
+                 ELSE IF bs = <<>> THEN [ok |-> TRUE, vs |-> vs]
+                 ELSE IF vs = <<>> THEN [ok |-> TRUE, vs |-> Lines(bs)]
+                 ELSE [ok |-> FALSE]
+CUnspecBands == [c |-> "unspec", why |-> "order of values left open (bytes/values interleaving, keys of a map)"]
 
 \* ---------------------------------------------------------------- kinds (builtin kind-of)
 KindName(v) == CASE v.k = "nil" -> "nil" [] v.k = "bool" -> "bool" [] v.k = "str" -> "string"
@@ -333,6 +370,7 @@ Show(v) == CASE v.k = "list" -> [k |-> "list", es |-> [i \in 1..Len(v.es) |-> Sh
              [] v.k = "fn"   -> [k |-> "fn"]
              [] v.k = "exc"  -> [k |-> "exc", c |-> ShowCause(v.c)]
              [] v.k = "reason" -> [k |-> "reason", c |-> ShowCause(v.c)]
+             [] v.k = "ns"   -> [k |-> "ns"]
              [] OTHER        -> v
 ShowCause(c) == CASE c.c = "fail" -> [c |-> "fail", v |-> Show(c.v)]
                   [] c.c = "pipeline" -> [c |-> "pipeline", cs |-> [i \in 1..Len(c.cs) |-> ShowCause(c.cs[i])]]
